@@ -35,7 +35,8 @@ def main():
     demo = os.path.abspath(os.path.join(d, "demo.py"))
     assert sh("git -C /repo status --porcelain").stdout.strip() == "", "repo not clean"
     res = {"seed": sid, "property": meta["property"], "summary": meta.get("summary"), "needs_to_manifest": meta.get("needs_to_manifest")}
-    base_fail = failing_tests()
+    fast = "--fast" in args
+    base_fail = [] if fast else failing_tests()
     r0 = sh(f"PYTHONPATH=/repo/src {PY} {demo}")
     res["demo_clean_exit"] = r0.returncode
     a = sh(f"git -C /repo apply {patch}")
@@ -46,7 +47,7 @@ def main():
         r1 = sh(f"PYTHONPATH=/repo/src {PY} {demo}")
         res["demo_patched_exit"] = r1.returncode
         res["demo_patched_out"] = (r1.stdout + r1.stderr)[-400:]
-        mut_fail = failing_tests()
+        mut_fail = [] if fast else failing_tests()
         if mut_fail != base_fail:      # a few shipped tests depend on the wall clock (minute boundaries): look again
             import time as _t
             _t.sleep(2)
@@ -71,11 +72,14 @@ def main():
     res["valid_seed"] = valid
     res["caught_by"] = [p for p, c in res["checks"].items() if c["exit"] == 1]
     print(json.dumps(res, indent=1))
+    if "--fast" in args:
+        return 0
     if "--keep" in args and valid:
         out = os.path.join(V, "seeded", sid)
         os.makedirs(out, exist_ok=True)
-        shutil.copy(patch, os.path.join(out, "patch.diff"))
-        shutil.copy(demo, os.path.join(out, "demo.py"))
+        for src, name in ((patch, "patch.diff"), (demo, "demo.py")):
+            if os.path.abspath(src) != os.path.abspath(os.path.join(out, name)):
+                shutil.copy(src, os.path.join(out, name))
         m = dict(meta)
         m.update({"seed_id": sid, "breaks_property": meta["property"], "validated": {
             "demo_exit_clean": res["demo_clean_exit"], "demo_exit_patched": res["demo_patched_exit"],
